@@ -52,7 +52,7 @@ def _cnormal(rng, m):
 
 
 FAMILIES = ["complex", "real", "negative", "positive", "uniform", "basis", "sparse", "left_zero", "right_zero",
-            "zero_subtrees", "one_zero", "product", "phases_only", "two_point"]
+            "zero_subtrees", "one_zero", "product", "phases_only", "two_point", "near_real", "tiny_odd"]
 
 
 def make_vector(rng, n, fam):
@@ -106,6 +106,11 @@ def make_vector(rng, n, fam):
         j = int(rng.integers(N))
         v[i] = 0.6
         v[j] += 0.8j
+    elif fam == "near_real":        # real up to round-off: imaginary parts of relative size 1e-12 .. 1e-17
+        v = rng.normal(size=N) + 1j * rng.normal(size=N) * 10.0 ** float(rng.integers(-17, -11))
+    elif fam == "tiny_odd":         # odd-indexed amplitudes tiny but non-zero, with phases
+        v = rng.normal(size=N) + 1j * rng.normal(size=N)
+        v[1::2] *= 10.0 ** float(rng.integers(-12, -8))
     else:
         raise ValueError(fam)
     return _unit(v)
